@@ -23,7 +23,7 @@ Definition forest_ok : bool :=
 Definition names_nodup : bool := nodup_strb (map (fun e => fst (snd e)) g_classes).
 
 (* listing -> index, with the TEMPLATE_SUFFIX of /repo *)
-Definition p_tset (listing : list path) : tset := mk_tset g_template_suffix listing.
+Definition p_tset (listing : list path) : tset := mk_tset g_index_top_level_only g_template_suffix listing.
 (* a file named <ClassName><TEMPLATE_SUFFIX> is indexed under <ClassName>, for every class of the forest *)
 Definition class_names_index_ok : bool :=
   negb (match g_template_suffix with [] => true | _ => false end) &&
@@ -109,7 +109,8 @@ Definition flatb (l : list path) : bool :=
   forallb (fun p => negb (str_eqb (py_suffix (basename p)) g_template_suffix) || str_eqb (basename p) p) l.
 Definition p_flatb (pol : policy) (dirs : option (list (list path))) (pkg : option (list path)) : bool :=
   let '(fs, pk) := mk_loaders pol dirs pkg in
-  match fs with Some rs => forallb flatb rs | None => true end && match pk with Some l => flatb l | None => true end.
+  g_index_top_level_only ||
+  (match fs with Some rs => forallb flatb rs | None => true end && match pk with Some l => flatb l | None => true end).
 Definition p_shadow_freeb (pol : policy) (dirs : option (list (list path))) (pkg : option (list path)) (c : cls) : bool :=
   let '(fs, pk) := mk_loaders pol dirs pkg in
   shadow_freeb (match p_index_fs fs with Some T => T | None => fun _ => None end)
